@@ -60,6 +60,14 @@ func init() {
 					}
 				}
 				items = append(items, Item{ID: "checkvalue:" + sv.Alg, Run: func(c *Ctx) { c14checkValue(c, sv) }})
+				// purity and repeatability on long inputs (block-wise implementations change behaviour at size thresholds)
+				for _, n := range []int{4096, 65537, 300001} {
+					n := n
+					if n > 100000 && sv.Alg != "CRC32" {
+						continue // the loop-based services are interpreted step by step; 65 537 bytes is the stated bound for them
+					}
+					items = append(items, Item{ID: fmt.Sprintf("long:%s/n=%d", sv.Alg, n), Run: func(c *Ctx) { c14long(c, sv, n) }})
+				}
 			}
 			return items
 		}}
@@ -455,7 +463,7 @@ func c14pattern(c *Ctx, sv svcSpec, n int) {
 	bufID := s.newObj(&Obj{Kind: kBuffer, B: VecBytes(data), R: CI(0)})
 	recv := &Ptr{Obj: s.newObj(&Obj{Kind: kCell, Val: e.zero(T)})}
 	oldU := e.unroll
-	e.unroll = n + 8
+	e.unroll = 10*n + 64
 	defer func() { e.unroll = oldU }()
 	rw, signed, _ := width(fn.Signature.Results().At(0).Type())
 	// reference: (k0*b0 + k1*b1 + k2*b2 + k3*b3) mod 256 with the multiplicities of each pattern position
@@ -492,5 +500,65 @@ func c14pattern(c *Ctx, sv svcSpec, n int) {
 		c.Witness(fs, "pattern", func(val func(*Term) uint64) any {
 			return map[string]any{"alg": sv.Alg, "n": n, "pattern": fmt.Sprintf("%02x%02x%02x%02x", val(pat[0]), val(pat[1]), val(pat[2]), val(pat[3]))}
 		})
+	}
+}
+
+// c14long: the real Calc twice on a long concrete input (every byte 0x5A except a symbolic first byte is not
+// needed: purity and repeatability do not depend on content): buffer untouched, same result both times.
+func c14long(c *Ctx, sv svcSpec, n int) {
+	e := c.e()
+	fn, T := c.calcFn(sv)
+	if fn == nil {
+		c.Inconclusive("Calc of " + sv.Name + " not found")
+		return
+	}
+	old, oldU := e.crcExact, e.unroll
+	e.crcExact = 0
+	e.unroll = 10*n + 64
+	defer func() { e.crcExact, e.unroll = old, oldU }()
+	s := c.w.newState()
+	data := make([]*Term, n+1)
+	fill := C(8, 0x5A)
+	for i := range data {
+		data[i] = fill
+	}
+	bufID := s.newObj(&Obj{Kind: kBuffer, B: VecBytes(data), R: CI(1)})
+	recv := &Ptr{Obj: s.newObj(&Obj{Kind: kCell, Val: e.zero(T)})}
+	steps := []map[string]any{
+		step("op", "fillbuf", "buf", "b", "n", n, "fill", 0x5A),
+		step("op", "calc", "alg", sv.Alg, "buf", "b"),
+		step("op", "calc", "alg", sv.Alg, "buf", "b"),
+	}
+	e.pushCall(s, fn, []Value{recv, &Ptr{Obj: bufID}}, nil)
+	for _, fs := range e.Run(s) {
+		if c.PathProblem(fs, "Calc", func(val func(*Term) uint64, msg string) *Violation {
+			return &Violation{Obligation: "no-panic", Detail: sv.Alg + " Calc panics on a long input: " + msg, Replay: &ReplayReq{Steps: steps, Judge: Judge{Kind: "panic"}}}
+		}) {
+			continue
+		}
+		got, _ := fs.ret.(*Term)
+		b := fs.heap[bufID]
+		pure := And(Eq(b.R, CI(1)), Eq(b.B.Len, CI(int64(n+1))))
+		c.Prove(fs, "buffer-untouched", pure, func(val func(*Term) uint64) *Violation {
+			return &Violation{Detail: fmt.Sprintf("%s Calc consumes or modifies a buffer of %d bytes (unread bytes afterwards: %d)", sv.Alg, n, int64(val(Sub(b.B.Len, b.R)))),
+				Replay: &ReplayReq{Steps: steps, Judge: Judge{Kind: "calc_pure", Step: 1, Step2: 2}}}
+		})
+		e.pushCall(fs, fn, []Value{recv, &Ptr{Obj: bufID}}, nil)
+		for _, f2 := range e.Run(fs) {
+			if c.PathProblem(f2, "Calc#2", nil) {
+				continue
+			}
+			g2, _ := f2.ret.(*Term)
+			if got != nil && g2 != nil {
+				c.Prove(f2, "repeatable", Eq(g2, got), func(val func(*Term) uint64) *Violation {
+					return &Violation{Detail: fmt.Sprintf("%s Calc of the same %d bytes gives a different result the second time", sv.Alg, n),
+						Replay: &ReplayReq{Steps: steps, Judge: Judge{Kind: "calc_pure", Step: 1, Step2: 2}}}
+				})
+			}
+		}
+		c.res.Witness++
+		if c.res.Sample == nil {
+			c.res.Sample = map[string]any{"alg": sv.Alg, "n": n}
+		}
 	}
 }
